@@ -220,7 +220,9 @@ class ParamResolver:
                 # type signature to complex would cause many cascading issues
                 return complex(v)
             else:
-                return float(v)
+                # A symbolically real value can still evaluate with a rounding-size imaginary
+                # part (e.g. exp(1.0*I*pi)), which float() refuses.
+                return complex(v).real
 
         return self._value_of_recursive(value)
 
